@@ -88,11 +88,8 @@ class SemDiff:
 
     @staticmethod
     def cap_of(config):
-        import re
-        for st in config:
-            m = re.match(r"SET batch_size TO (\d+)", st)
-            if m:
-                return max(1, min(2048, int(m.group(1))))
+        """Rows per INSERT statement. (Until the repair of F36 a stored chunk with more rows than the session's batch_size made scans
+        panic and this returned the batch size; now chunks larger than the batch size are part of what is explored.)"""
         return 400
 
     def model_rows(self, db, queries):
@@ -109,8 +106,7 @@ class SemDiff:
 
     def engine_rows(self, db, queries, config, inserts, threads=4):
         """Returns list (per query) of ('rows', rows, cols) | ('err', msg) | ('crash', info)."""
-        # session settings first: tables are written under the same batch size they are read with
-        # (lowering batch_size after an INSERT panics in scans - known finding F36, probed by C03)
+        # session settings first; one INSERT may hold more rows than the batch size (scans then slice the stored chunk: F36)
         stmts = list(config) + qgen.setup_sql(db, inserts=inserts, cap=self.cap_of(config))
         nsetup = len(stmts)
         sqls = [qgen.Renderer({k: v[0] for k, v in db.items()}).query(q) for q in queries]
@@ -147,6 +143,16 @@ class SemDiff:
     def check(self, db, queries, configs, inserts=1, sort_keys=None, known_key=None):
         """queries: list of terms; configs: list of (name, [SET stmts]); sort_keys: per query None or [((expr,d,nf), col index)]."""
         ck = self.ck
+        # queries whose joins can materialise millions of rows (a triple cross join of the 300-1500 row tables) are dropped: the
+        # Lean reference evaluator and the JSON transport need minutes for them and they add nothing a 10^5-row product does not
+        keep = [i for i, q in enumerate(queries) if qgen.max_intermediate(q, db) <= 400000]
+        if len(keep) != len(queries):
+            self.stats["skipped_too_large"] = self.stats.get("skipped_too_large", 0) + len(queries) - len(keep)
+            queries = [queries[i] for i in keep]
+            if sort_keys:
+                sort_keys = [sort_keys[i] for i in keep]
+        if not queries:
+            return
         models = self.model_rows(db, queries)
         per_cfg = []
         for name, cfg in configs:
